@@ -217,6 +217,9 @@ DIRECTED = [
     "a;a;s:1:0:ab=6&ac=2;p:0:0:a*;p:1:1:ab;g:0:a*;b:0:p~0~ab@g4+g~ab@g4+s~0~x=1;s:1:0:ab=9;s:1:0:ab=1;g:0:a*&ab@g4;s:1:0:ac=3",
     # quiet SETDATA / REMOVEDATA of a session the subscriber cannot see (it watches session 1 only): its mirror stays exact
     "a;a;a;p:0:0:/*/1/*;s:1:0:ab=6;s:2:4:ab=7&b/c=8;b:2:r~1~b+s~0~x=1;s:1:0:ab=9;s:2:4:ab=1;r:1:0:ab",
+    # quiet changes the subscriber CAN see (mirror_converges_announced): the quietly changed paths drop out of the statement,
+    # everything else stays exact; a later loud change of the same node is delivered as usual
+    "a;a;s:1:0:ab=6;p:0:0:a*;s:1:4:ab=7&ac=2;s:1:0:abc=1;r:1:1:abc;s:1:0:ab=9;b:1:s~4~a=1+r~1~ac;s:1:0:a=2",
     # unsubscribe: the client's own pruning
     "a;a;s:1:0:ab=5&ac=6;p:0:0:a*&ab;u:0:a*;s:1:0:ab=7&ac=8;u:0:ab",
     # set then remove / remove then set across one flush; nested creation; recursive removal
@@ -363,6 +366,10 @@ class CHECK(vlib.Check):
                 "keys are subscriptions it holds at that moment (same path and filter), which sends no SUBSCRIBE:/GETDATA between two "
                 "unsubscribes of one BATCH (unsubscribes at the head and in the tail of a BATCH are fine), and whose SUBSCRIBE: fields "
                 "per Message have distinct non-empty paths",
+                "mirror_converges_announced: a command of another session made of quiet SETDATA/REMOVEDATA only may change nodes the "
+                "observer watches; the paths it changed are left out of the statement from then on (the harness collects them by "
+                "comparing the real tree before and after, the driver the model's tree); a command mixing quiet and announced changes "
+                "seen by the observer is not covered (those clients are taken out of the oracle)",
                 "parameter names (Refl/Params.v): REMOVEPARAMETERS of a SUBSCRIBE: name the session does not hold as a parameter does nothing "
                 "('SUBSCRIBE:x' does not remove what 'SUBSCRIBE:/*/*/x' created); modelled as a layer that lowers the commands on the wire",
                 "MatchLaws (Refl/BaseProofs.v): clause text equality is decidable; '*' matches every name; a clause reported unique / "
